@@ -106,7 +106,7 @@ func (s c01State) describe(pool []string) string {
 // c01Eval evaluates the package made of the given file sources (plus the
 // shared definitions file) and returns the projection per top-level field.
 func c01Eval(srcs []string) (map[string]string, error) {
-	return pkgEval(append([]string{"package p\n#D: {x: int}\n"}, srcs...), []string{"a", "b", "c"})
+	return pkgEval(append([]string{"package p\n#D: {x: int}\n#M: {T: _, out: [string]: T}\n"}, srcs...), []string{"a", "b", "c"})
 }
 
 // pkgEval evaluates the package made of srcs plus the probe file and returns
@@ -186,20 +186,21 @@ func probeFile(labels []string) string {
 
 // the hand-picked seeds of CueRewrite.tla (Fixed), as TLC prints them
 var c01FixedSeeds = map[string]bool{
-	"<<<<16, 17, 18>>, <<2, 0, 0>>, <<8, 0, 0>>>>":   true,
-	"<<<<11, 3, 0>>, <<5, 1, 0>>, <<13, 8, 0>>>>":    true,
-	"<<<<13, 14, 0>>, <<20, 0, 0>>, <<9, 10, 12>>>>": true,
-	"<<<<22, 9, 0>>, <<6, 4, 0>>, <<19, 8, 0>>>>":    true,
-	"<<<<24, 23, 0>>, <<26, 25, 7>>, <<15, 8, 0>>>>": true,
-	"<<<<13, 14, 0>>, <<20, 0, 0>>, <<2, 0, 0>>>>":   true,
-	"<<<<3, 12, 4>>, <<2, 0, 0>>, <<14, 9, 19>>>>":   true,
-	"<<<<27, 28, 11>>, <<1, 0, 0>>, <<2, 0, 0>>>>":   true,
-	"<<<<29, 30, 11>>, <<1, 4, 0>>, <<20, 3, 0>>>>":  true,
+	"<<<<16, 17, 18>>, <<2, 0, 0>>, <<8, 0, 0>>>>":    true,
+	"<<<<11, 3, 0>>, <<5, 1, 0>>, <<13, 8, 0>>>>":     true,
+	"<<<<13, 14, 0>>, <<20, 0, 0>>, <<9, 10, 12>>>>":  true,
+	"<<<<22, 9, 0>>, <<6, 4, 0>>, <<19, 8, 0>>>>":     true,
+	"<<<<24, 23, 0>>, <<26, 25, 7>>, <<15, 8, 0>>>>":  true,
+	"<<<<13, 14, 0>>, <<20, 0, 0>>, <<2, 0, 0>>>>":    true,
+	"<<<<3, 12, 4>>, <<2, 0, 0>>, <<14, 9, 19>>>>":    true,
+	"<<<<27, 28, 11>>, <<1, 0, 0>>, <<2, 0, 0>>>>":    true,
+	"<<<<29, 30, 11>>, <<1, 4, 0>>, <<20, 3, 0>>>>":   true,
+	"<<<<31, 32, 8>>, <<32, 31, 33>>, <<31, 8, 0>>>>": true,
 }
 
 func checkC01(r *kit.Run) {
 	r.Assumptions = []string{
-		"programs: packages of up to two files declaring the fields a, b, c with up to 3 conjuncts each from the 26-entry pool of CueRewrite.tla (scalars, bounds, defaulted disjunctions, open/closed structs, a definition, patterns, lists, references to sibling fields); rewrites as listed in the spec, orbits explored to MaxSteps",
+		"programs: packages of up to two files declaring the fields a, b, c with up to 3 conjuncts each from the 33-entry pool of CueRewrite.tla (scalars, bounds, defaulted disjunctions, open/closed structs, a definition, patterns, lists, references to sibling fields); rewrites as listed in the spec, orbits explored to MaxSteps",
 		"two values are the same when their projections agree: error class, kind, concrete scalar, fields with their kinds, closedness, acceptance of 26 probe values, default, concreteness; field order and error text are ignored",
 	}
 	// pool
